@@ -29,11 +29,18 @@ Pairs3 == IF K >= 3 THEN {[properties |-> [a |-> s1, b |-> s2]] : s1 \in Lvl1 \c
 Roots(z) == UNION {Pairs3, {[properties |-> [a |-> s]] : s \in Subs}}
             \cup {[properties |-> [a |-> s, b |-> [default |-> Bool(TRUE)]], required |-> r] : s \in Lvl1, r \in {<<>>, <<"a">>, <<"b">>}}
             \cup {TrueS, FalseS, [default |-> Num(R_1)], [items |-> [properties |-> [a |-> [default |-> Num(R_1)]]]]}
+            \* siblings that each receive a CONTAINER (an object default, a container holding nested defaults, a present
+            \* object completed in place): every one is built on its own, nothing of one sibling shows up in another
+            \cup {[properties |-> [a |-> s1, b |-> s2, c |-> s3]] :
+                    s1 \in {[default |-> Obj([x |-> Num(R_1)])], [properties |-> [x |-> [default |-> Num(R_2)]]]},
+                    s2 \in {[default |-> Obj([y |-> Num(R_2)])], [default |-> EmptyObj, properties |-> [y |-> [default |-> Str("a")]]]},
+                    s3 \in {[default |-> Obj([z |-> Null])], [properties |-> [n |-> [properties |-> [x |-> [default |-> Num(R_1)]]]]]}}
 \* instances: every subset of the properties present, non-objects at any position
 Insts == <<EmptyObj, Obj([a |-> EmptyObj]), Obj([a |-> Num(R_3)]), Obj([a |-> Null]), Obj([a |-> Obj([x |-> Num(R_3)])]),
            Obj([a |-> Obj([n |-> EmptyObj])]), Obj([a |-> Obj([n |-> Obj([x |-> Str("a")])])]), Obj([a |-> Obj([n |-> Num(R_1)])]),
            Obj([b |-> Num(R_1)]), Obj([a |-> EmptyObj, b |-> Bool(FALSE)]), Obj([c |-> Num(R_1)]), Obj([a |-> EmptyArr]),
-           Num(R_1), Null, Arr(<<EmptyObj>>), Obj([a |-> Obj([y |-> Num(R_1)])])>>
+           Num(R_1), Null, Arr(<<EmptyObj>>), Obj([a |-> Obj([y |-> Num(R_1)])]),
+           Obj([b |-> Obj([q |-> Str("a")])]), Obj([a |-> Obj([q |-> Num(R_1)]), c |-> EmptyObj])>>
 
 Init == cs \in Roots(0) /\ phase = "new"
 Next == phase = "new" /\ phase' = "done" /\ cs' = cs
